@@ -33,7 +33,7 @@ Definition enc_run (r : run) : list nat :=
 Definition enc_spc (p : spc) : list nat :=
   match p with
   | SCheck => [1; 0] | SBuild => [2; 0] | SClear r => [3; r] | SOpenA r => [4; r] | SOpenSrc r => [5; r]
-  | SOpenDlq r => [6; r] | SSpawn r => [7; r] | SPublish r => [8; r] | SStatus r => [9; r] | SRegister r => [10; r]
+  | SOpenDlq r => [6; r] | SRollback r => [11; r] | SSpawn r => [7; r] | SPublish r => [8; r] | SStatus r => [9; r] | SRegister r => [10; r]
   end.
 
 Definition enc_cpc (p : cpc) : list nat :=
